@@ -485,6 +485,11 @@ def mixed_boundary(rng):
     topo_all = {"svcCb": [list(k) for k in sorted(by_svc) if k[1] > 0], "accCb": [1, 2, 3, 4]}
     topo_none = {"svcCb": [], "accCb": []}
     kinds = ["ok", "norm", "reject", "null", "novalue"]
+    # the plainest normalising write: Brightness := 150 on a 0..100 characteristic, all callback levels present
+    bri = next(c for c in targets() if w.chars[c].display_name == "Brightness")
+    out.append({"topo": topo_all, "ops": [{
+        "op": "write", "conn": 0, "pid": None, "http": True, "svcRaise": [], "accRaise": [],
+        "entries": [{"aid": bri[0], "iid": bri[1], "hasValue": True, "value": 150, "r": None, "cb": ["ret", None]}]}]})
     for topo in (topo_all, topo_none):
         for grp in multi:
             for k1 in kinds:
@@ -639,6 +644,15 @@ def judge_write(ctx: Ctx, script: dict, idx: int, ops: List[dict], obs: dict, wo
         return
 
     # ---- executed request (untimed, or timed with a live prepare)
+    if pid is not None and entries and not changed and not obs["log"] and len(items) == len(entries) and all(
+        it.get("status") == ref.INVALID_VALUE for it in items
+    ) and any(e["hasValue"] and e["value"] is not None and normalise((e["aid"], e["iid"]), e["value"])[0] for e in entries):
+        bad(
+            "C10:timed-write-with-live-prepare-refused",
+            f"connection {conn} prepared pid {pid}, has not used it, and its time to live has not elapsed "
+            f"(now - prepare time <= ttl), yet the write was refused ({ref.INVALID_VALUE} for every entry, nothing executed)",
+        )
+        return
     all_ok = True
     wr_due = False
     for e in entries:
@@ -782,7 +796,7 @@ def _patches():
 def all_scripts(ctx: Ctx):
     rng = ctx.rng
     scripts = boundary_scripts(rng) + mixed_boundary(rng)
-    for _ in range(ctx.n(1400, 30000)):
+    for _ in range(ctx.n(4000, 60000)):
         scripts.append(gen_script(rng))
     return scripts
 
